@@ -1,10 +1,10 @@
 \* slice "seps": separator placement and change over four fields
 SPECIFICATION MCSpec
 CONSTANTS FieldKinds <- K_one
-          ConstTexts <- C_two
+          ConstTexts <- C_one
           AttrNames <- Nm_none
           Widths <- W_one
-          AllowLeft = TRUE
+          AllowLeft = FALSE
           Fmts <- Fm_none
           Seps <- Sp_three
           MaxFields = 4
@@ -12,6 +12,7 @@ CONSTANTS FieldKinds <- K_one
           Ascending = FALSE
           MsgIds <- M_one
           Sels <- Sel_none
+          StreamPieces <- P_txt
           MaxGlobal = 0
           MaxScopes = 0
           MaxMsgAttrs = 0
